@@ -684,36 +684,17 @@ func c12r3(c *core.Ctx) {
 	})
 	cloneM := core.MustMethod(vmT, "Clone")
 	cd := p.Decl(cloneM)
-	inLit := map[*types.Var]ast.Expr{}
-	ast.Inspect(cd.Body, func(n ast.Node) bool {
-		cl, ok := n.(*ast.CompositeLit)
-		if !ok || core.NamedOf(info.TypeOf(cl)) != vmT {
-			return true
-		}
-		for _, e := range cl.Elts {
-			if kv, ok := e.(*ast.KeyValueExpr); ok {
-				if id, ok := kv.Key.(*ast.Ident); ok {
-					if f, ok := info.Uses[id].(*types.Var); ok {
-						inLit[f] = kv.Value
-					}
-				}
+	// how Clone (and the helpers it hands the work to) fills the new VM
+	cm := cloneModelOf(p)
+	vmStruct := vmT.Underlying().(*types.Struct)
+	fieldIndex := func(f *types.Var) int {
+		for i := 0; i < vmStruct.NumFields(); i++ {
+			if vmStruct.Field(i) == f {
+				return i
 			}
 		}
-		return true
-	})
-	// also direct assignments clone.f = vm.f
-	ast.Inspect(cd.Body, func(n ast.Node) bool {
-		if as, ok := n.(*ast.AssignStmt); ok && len(as.Lhs) == len(as.Rhs) {
-			for i, l := range as.Lhs {
-				if f := fieldOf(info, l); f != nil {
-					if _, dup := inLit[f]; !dup {
-						inLit[f] = as.Rhs[i]
-					}
-				}
-			}
-		}
-		return true
-	})
+		return -1
+	}
 	perRun := map[string]bool{
 		"ip":           true, // the instruction offset is per-run state, reset to 0 in a clone by design
 		"globalsGiven": true, // set and cleared while one set of options is applied (applyOptions resets it before its loop); never read afterwards
@@ -727,37 +708,24 @@ func c12r3(c *core.Ctx) {
 	sort.Strings(names)
 	for _, n := range names {
 		f := byName[n]
-		v, ok := inLit[f]
 		if perRun[n] {
 			c.Pass("vm.VirtualMachine.Clone|field:"+n, posOf(p, cd), "per-run field "+n+" (set by "+optFields[f]+") is reset in clones by design")
 			continue
 		}
-		okv := ok && fieldOf(info, v) == f
-		// an entry-by-entry copy: a local filled in a range loop over the original's field
-		if ok && !okv {
-			if id, isId := ast.Unparen(v).(*ast.Ident); isId {
-				local := objOfIdent(info, id)
-				ast.Inspect(cd.Body, func(n ast.Node) bool {
-					rs, isRange := n.(*ast.RangeStmt)
-					if !isRange || fieldOf(info, rs.X) != f {
-						return true
-					}
-					ast.Inspect(rs.Body, func(k ast.Node) bool {
-						if as, isAs := k.(*ast.AssignStmt); isAs && len(as.Lhs) == 1 {
-							if ix, isIx := as.Lhs[0].(*ast.IndexExpr); isIx {
-								if lid, isLid := ast.Unparen(ix.X).(*ast.Ident); isLid && objOfIdent(info, lid) == local {
-									okv = true
-								}
-							}
-						}
-						return true
-					})
-					return true
-				})
+		// the field is the original's value itself, or a table filled entry by
+		// entry from the original's table of the same name (in a loop or by a copier)
+		inits := cm.InitOf(fieldIndex(f))
+		ok := len(inits) > 0
+		okv := ok
+		var v ast.Expr
+		for _, in := range inits {
+			if (in.Kind != "alias" && in.Kind != "copy") || in.Source != in.Field {
+				okv = false
 			}
 		}
+		_ = v
 		c.Check(okv, "vm.VirtualMachine.Clone|field:"+n, posOf(p, cd),
-			"field "+n+" written by option "+optFields[f]+" must be copied from the original by Clone()"+ifs(ok && !okv, " (Clone sets it to "+exprStr(v)+")"))
+			"field "+n+" written by option "+optFields[f]+" must be copied from the original by Clone()"+ifs(ok && !okv, " (Clone sets it to something else at "+p.Pos(inits[0].Store.Pos())+")"))
 	}
 }
 
